@@ -399,7 +399,8 @@ theorem appendLine_toks (E : Env) (d : Doc) (l : Nat) (lb : List Word) :
 theorem step_nl_toks (E : Env) (s : State)
     (h : ¬ (s.obuf ≠ [] ∧ s.obuf.getLast? = some hyphen)) :
     ∃ blk, (step E false s nl).doc.toks = s.doc.toks ++ blk ++ [⟨[nl], s.line⟩] ∧
-      (∀ t ∈ blk, LineTok E s.line t) ∧ (step E false s nl).line = s.line + 1 := by
+      (∀ t ∈ blk, LineTok E s.line t) ∧
+      (step E false s nl).line = s.line + 1 + (if s.deferredWord = true then 1 else 0) := by
   obtain ⟨blk, hb, hp⟩ := appendLine_toks E s.doc s.line
     (if s.obuf ≠ [] then s.linebuf ++ [flushWord E s.obuf] else s.linebuf)
   refine ⟨blk, ?_, hp, ?_⟩
@@ -445,8 +446,8 @@ theorem shape_step_inv (E : Env) (q : Tok → Bool) (hq : ∀ l t, LineTok E l t
       have := good_line q s.doc.toks blk ⟨[nl], s.line⟩ s.line hi.1 hi.2
         (fun t ht => ⟨(hb t ht).1, hq _ t (hb t ht)⟩) rfl
       unfold ShapeInv
-      rw [ht, hl]
-      exact ⟨this.1, by rw [this.2]⟩
+      rw [ht, hl, hd]
+      exact ⟨this.1, by rw [this.2]; simp⟩
   · obtain ⟨h1, h2⟩ := step_other_doc E s r hr hd
     unfold ShapeInv
     rw [h1, h2]
